@@ -2660,7 +2660,7 @@ hsStateDetermined:
                 seen it before.  If we haven't this routine also returns
                 the next open fragment header index for use below.
  */
-                if ((rc = dtlsSeenFrag(ssl, fragOffset, &j)) == 1)
+                if ((rc = dtlsSeenFrag(ssl, fragOffset, fragLen, &j)) == 1)
                 {
                     return MATRIXSSL_SUCCESS;
                 }
@@ -2711,7 +2711,10 @@ hsStateDetermined:
 
                 ssl->fragTotal += fragLen;
                 Memcpy(ssl->fragMessage + fragOffset, c, fragLen);
-                if (ssl->fragTotal != hsLen)
+                /* Fragments of a retransmission may overlap the ones we
+                   have: the message is complete when the bytes from its
+                   start on are all there, whatever the sizes add up to */
+                if (dtlsFragCoverage(ssl) != (int32) hsLen)
                 {
 
                     /* Don't have all the fragments yet */
@@ -2719,6 +2722,14 @@ hsStateDetermined:
                 }
                 c = ssl->fragMessage;
                 end = ssl->fragMessage + hsLen;
+            }
+            else if (ssl->fragTotal > 0)
+            {
+                /* The whole message in one piece (a retransmission may be
+                   fragmented differently) while some fragments of it were
+                   being collected: it is this copy that is parsed and
+                   hashed, not the partial reassembly */
+                dtlsInitFrag(ssl);
             }
         }
 #endif  /* USE_DTLS */
